@@ -19,6 +19,7 @@
 #include <kernel/solver/pipepcg.hpp>
 #include <kernel/solver/bicgstab.hpp>
 #include <control/scalar_basic.hpp>
+#include <control/asm/mean_filter_asm.hpp>
 
 #include <cmath>
 
@@ -45,7 +46,7 @@ namespace
     std::vector<LevelOut> levels;
     // finest level
     std::vector<long long> keys;
-    std::vector<double> ax, ax3, diag, lump, rhs, sol;
+    std::vector<double> ax, ax3, diag, lump, rhs, sol, mf_sol, mf_rhs;
     std::vector<std::pair<std::pair<long long, long long>, double>> m1;   // type-1 matrix entries by (row key, column key)
     std::vector<long long> base_keys; std::vector<double> joined, split_out;   // base splitter (root only: base_keys/joined)
     double dot = 0, norm2 = 0, gmax = 0, gmin = 0, gsum = 0;
@@ -265,6 +266,17 @@ namespace
         if(std::abs(a_dot - out.dot) > tol_dot) sim::fail("SCALAR_ASYNC", "dot_async with four scalar tickets in flight delivered " + std::to_string(a_dot) + ", the blocking dot " + std::to_string(out.dot));
         if(std::abs(a_nrm - out.norm2) > 1e-13 * (std::abs(out.norm2) + 1.0)) sim::fail("SCALAR_ASYNC", "norm2_async (sqrt flag) with four scalar tickets in flight delivered " + std::to_string(a_nrm) + ", the blocking norm2 " + std::to_string(out.norm2));
         if(a_max != out.gmax || a_min != out.gmin) sim::fail("SCALAR_ASYNC", "max_async/min_async with four scalar tickets in flight delivered " + std::to_string(a_max) + "/" + std::to_string(a_min) + ", the blocking calls " + std::to_string(out.gmax) + "/" + std::to_string(out.gmin));
+      }
+      {
+        // mean filter (pure Neumann problems, continuous pressure): assembled by the control layer over the gate, applied to
+        // consistent test vectors; the filtered vectors must be those of the undecomposed filter. (Through a solve the
+        // filter is invisible as long as the data are compatible - it then only removes rounding.)
+        auto mf = Control::Asm::asm_mean_filter(the_system_level.gate_sys, the_domain_level.space, cubature);
+        LocalVector ms(nd), mr(nd);
+        for(Index d = 0; d < nd; ++d) { ms(d, g_val(out.keys[d], 51)); mr(d, g_val(out.keys[d], 52)); }
+        mf.filter_sol(ms);
+        mf.filter_rhs(mr);
+        for(Index d = 0; d < nd; ++d) { out.mf_sol.push_back(ms(d)); out.mf_rhs.push_back(mr(d)); }
       }
       if(rc.moved_ticket)
       {
@@ -559,7 +571,7 @@ namespace
       }
       // 5,7 finest level by key against world B
       auto maxabs = [](const std::vector<double>& v) { double m = 0; for(double x : v) m = std::max(m, std::abs(x)); return m; };
-      const double s_ax = maxabs(B.ax) + 1e-300, s_ax3 = maxabs(B.ax3) + 1e-300, s_diag = maxabs(B.diag), s_lump = maxabs(B.lump) + maxabs(B.diag), s_rhs = maxabs(B.rhs) + 1e-300, s_sol = maxabs(B.sol) + 1e-300;
+      const double s_ax = maxabs(B.ax) + 1e-300, s_ax3 = maxabs(B.ax3) + 1e-300, s_diag = maxabs(B.diag), s_lump = maxabs(B.lump) + maxabs(B.diag), s_rhs = maxabs(B.rhs) + 1e-300, s_sol = maxabs(B.sol) + 1e-300, s_mfs = maxabs(B.mf_sol) + 1e-300, s_mfr = maxabs(B.mf_rhs) + 1e-300;
       std::set<long long> seen;
       for(const RankOut& r : A)
       {
@@ -574,6 +586,8 @@ namespace
           if(!close(r.ax3[d], B.ax3[j], 1e-12, s_ax3)) sim::fail("MATVEC3", "y + alpha*A*x differs from the one-process result");
           if(!close(r.diag[d], B.diag[j], 1e-12, s_diag)) sim::fail("EXTRACT_DIAG", "synchronised main diagonal differs from the one-process diagonal: " + std::to_string(r.diag[d]) + " vs " + std::to_string(B.diag[j]));
           if(!close(r.lump[d], B.lump[j], 1e-12, s_lump)) sim::fail("LUMP_ROWS", "synchronised lumped rows differ from the one-process result");
+          if(!close(r.mf_sol[d], B.mf_sol[j], 1e-11, s_mfs)) sim::fail("MEAN_FILTER", "mean filter applied to a primal vector differs from the undecomposed filter: " + std::to_string(r.mf_sol[d]) + " vs " + std::to_string(B.mf_sol[j]));
+          if(!close(r.mf_rhs[d], B.mf_rhs[j], 1e-11, s_mfr)) sim::fail("MEAN_FILTER", "mean filter applied to a dual vector differs from the undecomposed filter: " + std::to_string(r.mf_rhs[d]) + " vs " + std::to_string(B.mf_rhs[j]));
           if(!close(r.rhs[d], B.rhs[j], 1e-12, s_rhs)) sim::fail("RHS", "assembled+synchronised right-hand side differs from the one-process vector");
           ++CNT.sol_entries;
           if(!(std::abs(r.sol[d] - B.sol[j]) <= 1e-7 * s_sol + 1e3 * B.noise_sol)) sim::fail("SOLUTION", "discrete solution differs from the one-process solution: " + std::to_string(r.sol[d]) + " vs " + std::to_string(B.sol[j]) + " (noise floor of the solve " + std::to_string(B.noise_sol) + ")");
